@@ -40,3 +40,12 @@ add("C05", "exploration",
     "Normal relay latency is milliseconds (two orders of magnitude below the bound). A stall without confirmation is reported as "
     "inconclusive, never as a violation.",
     "property-based testing (rapid): generated chunk vectors, lock-step progress oracle with release-and-confirm", "3/C05")
+add("C06", "fault_enumeration",
+    "Generated fault scripts (7 fault kinds x byte offsets around the 4096-byte replay buffer x attempt index x 'failed connection keeps "
+    "draining') are played by a byte-level TCP fault server against utils.NewResponseForwarder in-process under -race, with response "
+    "sizes around 4096 written in generated segments/pauses. Every acknowledged attempt must decode to exactly the reference response; "
+    "at most 3 attempts; no retry after more than 4096 bytes were consumed; the handler must return. The kind x offset grid is sampled "
+    "randomly (densely in the thorough tier), timings of the stale reader are not controlled.",
+    "The fault server acknowledges whatever well-framed POST body arrives (like a proxy that stores before parsing). That Close() returns "
+    "nil when all three attempts were answered 5xx is recorded as a class, not asserted (the property does not demand an error).",
+    "property-based testing (rapid): generated fault scripts, reference-serialisation oracle on every acknowledged attempt + race detector", "3/C06")
